@@ -422,7 +422,18 @@ void clauseHook(void const * thp, int kind, void const * litsp, int n) {
                         for (size_t i = 0; i < c.size(); ++i) { if (i) rec += ","; rec += std::to_string(c[i]); }
                         rec += "],\"lits\":[";
                         for (size_t i = 0; i < lv.size(); ++i) { if (i) rec += ","; rec += jsonEscape(litText(th, lv[i], tl)); }
-                        rec += "],\"db\":" + std::to_string(ctx.rup.clauses.size()) + "}";
+                        rec += "],\"db\":" + std::to_string(ctx.rup.clauses.size());
+                        if (g_cfg.dumpDbOnFailure && ctx.rup.clauses.size() <= 400) {
+                            rec += ",\"clauses\":[";
+                            for (size_t ci = 0; ci < ctx.rup.clauses.size(); ++ci) {
+                                if (ci) rec += ",";
+                                rec += "[";
+                                for (size_t k = 0; k < ctx.rup.clauses[ci].size(); ++k) { if (k) rec += ","; rec += std::to_string(ctx.rup.clauses[ci][k]); }
+                                rec += "]";
+                            }
+                            rec += "]";
+                        }
+                        rec += "}";
                         logRaw(rec);
                     }
                 }
